@@ -42,6 +42,21 @@ def check(ctx):
     if (not quick) and (not ctx.only or re.search(ctx.only, 'h_go_deep')):
         qs.append(Query('h_go_deep', gsa, 'h_go_deep', us2, timeout=1500 if quick else 3000, sample=smp, extra=sc.EXTRA, max_unwind={'*': 60}))
         ws.append(Query('w_h_go_deep', gsaw, 'h_go_deep', us2, timeout=1500 if quick else 3000, meta={'of': 'h_go_deep'}, expect='witness', extra=sc.EXTRA, max_unwind={'*': 60}))
+    # ---- pin table of the move generator
+    PW = '_ZN6engine13generate_pinsILNS_5ColorE0EEEPjRKNS_8PositionES2_Pm'; PB = PW.replace('ColorE0', 'ColorE1'); PINS = '_ZN6engine4PINSE'
+    if not ctx.only or re.search(ctx.only, 'h_pins'):
+        mp = ctx.module(['movegen', 'position', 'types', 'bithacks', 'move_bitboards'], tag='pins')
+        cp, hpp, _ = ctx.translate(mp, [PW, PB], overrides=ctx.dump_tables(), globals_=[PINS], out='engpins')
+        hdr = open(hpp).read()
+        if PINS not in hdr: raise Broken('global PINS not found in movegen (pin table renamed?)')
+        hp2 = ctx.path('h_c10_pins.c')
+        open(hp2, 'w').write('#define ENG_H "engpins.h"\n#define GEN_PINS_W %s\n#define GEN_PINS_B %s\n#define PINS_G %s\n#include "c10_pins.c"\n' % (PW, PB, PINS))
+        gp = ctx.gotocc('c10p', [cp, hp2]); gpw = ctx.gotocc('c10pw', [cp, hp2], ['WITNESS'])
+        for fn in ('h_pins_w', 'h_pins_b'):
+            smp = {'buffer': 'PINS[MAX_PINS] (movegen.cpp)', 'position': 'arbitrary bitboards, board array and king square', 'entry': 'generate_pins<%s>' % ('WHITE' if fn.endswith('w') else 'BLACK')}
+            us = {'pins_case.0': 3, 'pins_case.1': 8, 'pins_case.2': 65}
+            qs.append(Query(fn, gp, fn, us, timeout=900, sample=smp, max_unwind={'*': 70}))
+            ws.append(Query('w_' + fn, gpw, fn, us, timeout=900, sample=smp, meta={'of': fn}, expect='witness', max_unwind={'*': 70}))
     res = ctx.run_queries(qs + ws, par=4, label='c10')
     rb, wb = sc.run_b(ctx, 'C10', [(40, False, [], ''), (41, False, [], ''), (41, True, [], ''), (79, True, [], '')], ['C10'])
     res += rb + wb
@@ -65,6 +80,14 @@ def check(ctx):
             bad = 'AddressSanitizer' in out or 'runtime error' in out
             path = report.save_replay(ctx, r.q.name, {'harness': r.q.name, 'history_counter': ce.get('ce_aux'), 'sanitizer_output': [l for l in out.split('\n') if 'Sanitizer' in l or 'runtime error' in l][:10]})
             return {'confirmed': bad, 'key': 'history-overflow', 'path': path, 'text': '%s with history counter %s | ASan build, 820-ply game: %s' % ('; '.join(d for _, d in r.failed[:2]), ce.get('ce_aux'), 'sanitizer report' if bad else 'clean')}
+        if r.q.name.startswith('h_pins'):
+            import subprocess
+            exe = ctx.native_bin('pins_replay', [os.path.join(VERIF, 'native', 'pins_replay.cpp'), '-fsanitize=address', '-fno-omit-frame-pointer', '-g'], [])
+            out = ctx.sh([exe], ok=tuple(range(0, 256)) + (-6, -11))
+            bad = 'AddressSanitizer' in out
+            path = report.save_replay(ctx, r.q.name, {'harness': r.q.name, 'model': ce, 'sanitizer_output': [l for l in out.split('\n') if 'Sanitizer' in l or 'overflow' in l or 'PINS' in l][:8]})
+            return {'confirmed': True if bad else None, 'strict': True, 'key': 'pin-table-overflow', 'path': path,
+                    'text': '%s: %s pins written for an arbitrary occupancy (table holds fewer) | ASan build, positions with 2..8 absolute pins: %s' % (r.q.name, ce.get('ce_npins'), 'global-buffer-overflow reported' if bad else 'no report')}
         path = report.save_replay(ctx, r.q.name, {'harness': r.q.name, 'inputs': ce})
         return {'confirmed': None, 'strict': True, 'key': r.q.name, 'path': path, 'text': '%s: %s' % (r.q.name, '; '.join(d for _, d in r.failed[:2]))}
     return report.finish(ctx, res, wit, replay=replay,
